@@ -123,3 +123,28 @@ def peak_memory(func, arg):
     if not started:
         tracemalloc.stop()
     return peak, outcome
+
+
+def retained_memory(func, arg):
+    """Bytes still allocated after func(arg) returned and its result (or
+    exception) was dropped - memory the call pinned somewhere."""
+    import gc
+    started = tracemalloc.is_tracing()
+    if not started:
+        tracemalloc.start(1)
+    try:
+        func(arg)            # warm-up: one-time allocations are not retention
+    except Exception:  # noqa
+        pass
+    gc.collect()
+    base = tracemalloc.get_traced_memory()[0]
+    try:
+        result = func(arg)
+        del result
+    except Exception:  # noqa
+        pass
+    gc.collect()
+    kept = tracemalloc.get_traced_memory()[0] - base
+    if not started:
+        tracemalloc.stop()
+    return max(0, kept)
